@@ -47,6 +47,12 @@ def main():
     patch = os.path.join(sdir, "patch.diff")
     res = {"property": prop, "confirmed_at": time.strftime("%Y-%m-%d %H:%M:%S")}
     head = sh("git -C /repo rev-parse HEAD")[1].strip()
+    if not os.path.isdir(SCR):      # scratch worktree + build tree (removed again at the end of a session)
+        os.makedirs(os.path.dirname(SCR), exist_ok=True)
+        sh(f"git -C /repo worktree add --detach {SCR} {head}")
+        sh(f"cmake -G Ninja -S {SCR} -B {SB} -DCMAKE_BUILD_TYPE=None -DCMAKE_CXX_FLAGS='-O1 -fopenmp -pthread -pipe -Wno-error' "
+           f"-DBUILD_TESTING=ON -DOPM_ENABLE_PYTHON=OFF -DOPM_ENABLE_EMBEDDED_PYTHON=OFF -DUSE_MPI=OFF "
+           f"-Dfmt_DIR=/root/miniconda/lib/cmake/fmt -DCMAKE_PREFIX_PATH=/root/miniconda")
     sh(f"git -C {SCR} checkout -q -- . && git -C {SCR} checkout -q --detach {head}")
     rc, out = sh(f"git -C {SCR} apply {patch}")
     if rc != 0:
